@@ -415,9 +415,16 @@ Fixpoint aset {B} (k : string) (v : B) (l : list (string * B)) : list (string * 
 Definition gam_has_terms (g : gam) : bool := match g_terms g with Some (_ :: _) => true | _ => false end.
 
 (* `gam.<name> = v` for a plural name *)
+(* the expected length is computed from `getattr(self, name)`: a pending constructor keyword shadows the terms here too *)
+Definition gam_size (name : string) (g : gam) (ts : list term) : nat :=
+  match alookup name (g_pending g) with
+  | Some pv => if is_list pv then List.length (flatten pv) else 1%nat
+  | None => tl_size name ts
+  end.
 Definition gam_set (name : string) (v : value) (g : gam) : status * gam :=
   match g_terms g with
-  | Some (t :: ts) => let (st, ts') := tl_set name v (t :: ts) in (st, mkG (Some ts') (g_pending g) (g_fit_intercept g))
+  | Some (t :: ts) => let (st, ts') := meta_set is_intercept (term_size name) (term_set name) (gam_size name g (t :: ts)) v (t :: ts) in
+                      (st, mkG (Some ts') (g_pending g) (g_fit_intercept g))
   | _ => (Ok, mkG (g_terms g) (aset name v (g_pending g)) (g_fit_intercept g))
   end.
 (* `gam.<name>`: the instance dictionary wins; __getattr__ (collection from the terms) is only reached when it has no entry *)
@@ -426,6 +433,11 @@ Definition gam_get (name : string) (g : gam) : option value :=
   | Some v => Some v
   | None => match g_terms g with Some (t :: ts) => Some (tl_get name (t :: ts)) | _ => None end
   end.
+
+(* gam.set_params(name=v, force=force) for a plural name *)
+Definition gam_set_params (name : string) (v : value) (force : bool) (g : gam) : status * gam :=
+  (* plural names carry no underscore; hasattr(gam, name) holds through the instance dictionary or through __getattr__ *)
+  if mem_str name (map fst (g_pending g)) || force || gam_has_terms g then gam_set name v g else (Ok, g).
 
 (* _validate_data_dep_params: wrap (de-duplicate), add the intercept, hand the pending keyword arguments over in dictionary
    order, delete them.  `auto` : the default term list for the data (one spline per feature). *)
